@@ -593,56 +593,63 @@ var cacheFields = map[string]bool{"hash": true, "hashed": true, "size": true, "b
 
 // dumpAny prints a value structurally (pointers followed, unexported fields included, no addresses).
 func dumpAny(v any) string {
-	return dumpVal(reflect.ValueOf(v), 0)
+	var b strings.Builder
+	dumpVal(&b, reflect.ValueOf(v), 0)
+	return b.String()
 }
 
-func dumpVal(v reflect.Value, depth int) string {
+func dumpVal(b *strings.Builder, v reflect.Value, depth int) {
 	if depth > 12 {
-		return "…"
+		b.WriteString("…")
+		return
 	}
 	if !v.IsValid() {
-		return "nil"
+		b.WriteString("nil")
+		return
 	}
 	switch v.Kind() {
 	case reflect.Pointer, reflect.Interface:
 		if v.IsNil() {
-			return "nil"
+			b.WriteString("nil")
+			return
 		}
-		return dumpVal(v.Elem(), depth+1)
+		dumpVal(b, v.Elem(), depth+1)
 	case reflect.Struct:
-		s := "{"
+		b.WriteString("{")
 		for i := 0; i < v.NumField(); i++ {
 			if cacheFields[v.Type().Field(i).Name] {
 				continue // caches set at decode time; their agreement is checked through Hash()/Size()
 			}
-			s += " " + v.Type().Field(i).Name + ":" + dumpVal(v.Field(i), depth+1)
+			b.WriteString(" " + v.Type().Field(i).Name + ":")
+			dumpVal(b, v.Field(i), depth+1)
 		}
-		return s + "}"
+		b.WriteString("}")
 	case reflect.Slice, reflect.Array:
 		if v.Type().Elem().Kind() == reflect.Uint8 {
-			b := make([]byte, v.Len())
-			for i := range b {
-				b[i] = byte(v.Index(i).Uint())
+			bs := make([]byte, v.Len())
+			for i := range bs {
+				bs[i] = byte(v.Index(i).Uint())
 			}
-			return hex.EncodeToString(b)
+			b.WriteString(hex.EncodeToString(bs))
+			return
 		}
-		s := "["
+		b.WriteString("[")
 		for i := 0; i < v.Len(); i++ {
 			if i > 0 {
-				s += " "
+				b.WriteString(" ")
 			}
-			s += dumpVal(v.Index(i), depth+1)
+			dumpVal(b, v.Index(i), depth+1)
 		}
-		return s + "]"
+		b.WriteString("]")
 	case reflect.String:
-		return fmt.Sprintf("%q", v.String())
+		fmt.Fprintf(b, "%q", v.String())
 	case reflect.Bool:
-		return fmt.Sprint(v.Bool())
+		fmt.Fprint(b, v.Bool())
 	case reflect.Int, reflect.Int8, reflect.Int16, reflect.Int32, reflect.Int64:
-		return fmt.Sprint(v.Int())
+		fmt.Fprint(b, v.Int())
 	case reflect.Uint, reflect.Uint8, reflect.Uint16, reflect.Uint32, reflect.Uint64:
-		return fmt.Sprint(v.Uint())
+		fmt.Fprint(b, v.Uint())
 	default:
-		return v.Kind().String()
+		b.WriteString(v.Kind().String())
 	}
 }
